@@ -1391,6 +1391,25 @@ class Ctx:
             "sha256": info.sha(), "role": "traced (call recorded, body not executed)"})
         return ret
 
+    def record_external(self, I, key, fn, args, desc):
+        """A mocked method of a modelled external object (e.g. pathlib.Path.is_file): recorded in the ghost call
+        trace like any mocked call, returns a fresh value."""
+        if self.speculating:
+            raise SpecAbort()
+        ev = PObj("Call", label=self.fresh_label("call"))
+        ev.fields["fn"] = fn
+        ev.fields["key"] = key
+        ev.fields["args"] = PDict(list(args.items()))
+        ev.fields["index"] = len(self.trace.items)
+        ev.fields["raised"] = None
+        ret = None
+        if desc is not None:
+            ret, _ = self.make(desc, self.fresh_label(f"ret.{fn}"))
+        ev.fields["ret"] = ret
+        self.trace.items.append(ev)
+        self.result.assumptions.add(f"external {key} mocked: any result")
+        return ret
+
     def instantiate_hook(self, I, cinfo, args, kwargs, node, fr):
         key = f"{cinfo.module.name}:{cinfo.name}"
         tr = self._trace_entry(key)
